@@ -37,6 +37,29 @@ COMPONENTS = {
     "stub": ["psutil (SimMem)", "file system (SimFS)", "wall clock (SimClock)", "finalizer delivery (gc.disable + FINALIZE)", "formula bodies (generated, instrumented)"],
 }
 
+def enclosing(text: str) -> list:
+    """Calendar years / months in which the period starts or ends (own calendar)."""
+    import datetime
+
+    try:
+        if "-W" in text:
+            bits = text.split("-")
+            y, w = int(bits[0]), int(bits[1][1:])
+            first = datetime.date.fromisocalendar(y, w, int(bits[2]) if len(bits) > 2 else 1)
+            last = first if len(bits) > 2 else first + datetime.timedelta(days=6)
+            return sorted({str(first.year), str(last.year), f"{first.year}-{first.month:02d}", f"{last.year}-{last.month:02d}"})
+        bits = text.split("-")
+        if len(bits) == 1 and bits[0].isdigit():
+            return [text]
+        if len(bits) == 2:
+            return [bits[0], text]
+        if len(bits) == 3:
+            return [bits[0], f"{bits[0]}-{bits[1]}"]
+    except ValueError:
+        pass
+    return ["2017", "2018", "2019", "2020", "2018-12", "2019-01", "2018-01"]
+
+
 UNITS = [("month", 50), ("year", 22), ("eternity", 8), ("day", 10), ("week", 6), ("weekday", 4)]
 
 
@@ -100,7 +123,15 @@ def generate(seed: int, tier: str) -> dict:
             continue
         if inputs and r0 < 0.2:
             i = pick(orr, inputs)
-            ops.append({"do": ["delete_arrays", i[0]] if chance(orr, 0.5) else ["delete_arrays", i[0], i[1]]})
+            r1 = orr.random()
+            if r1 < 0.4 or i[1] == "ETERNITY":
+                ops.append({"do": ["delete_arrays", i[0]]})
+            elif r1 < 0.7:
+                ops.append({"do": ["delete_arrays", i[0], i[1]]})
+            else:
+                # a calendar year or month: what is stored *within* it goes, what merely
+                # starts or ends in it (a week straddling two years, a rolling year) stays
+                ops.append({"do": ["delete_arrays", i[0], pick(orr, enclosing(i[1]))]})
             continue
         if inputs and chance(orr, 0.15):
             i = pick(orr, inputs)
@@ -108,6 +139,13 @@ def generate(seed: int, tier: str) -> dict:
                 ops.append({"do": ["get_array", i[0], i[1]]})
                 continue
         ops.append({"do": gen_request(orr, world)})
+    straddlers = [i for i in inputs if len({e for e in enclosing(i[1]) if len(e) == 4}) == 2]
+    if changes_inputs and straddlers and chance(orr, 0.7):
+        # an input on a week that belongs to two calendar years: deleting either year
+        # leaves it alone (it is not *within* that year)
+        i = pick(orr, straddlers)
+        k = orr.randrange(len(ops) + 1)
+        ops[k:k] = [{"do": ["delete_arrays", i[0], pick(orr, [e for e in enclosing(i[1]) if len(e) == 4])]}, {"do": ["get_array", i[0], i[1]]}]
     fr = st["faults"]
     if profile == "acyclic" and chance(fr, 0.3):
         k = fr.randrange(len(ops))
